@@ -180,5 +180,30 @@ def check(ctx: Ctx) -> list[RuleResult]:
             r4.fail(f"{g.qualname}:writes-_recv_buffer", g.loc(n), f"{g.short} writes PortTransport._recv_buffer outside _read_ready")
     else:
         r4.ok({"writers_outside__read_ready": 0})
+    # (iv) the terminator is looked for in the *carried* bytes: every test for / split at the line terminator (a bytes constant
+    # containing \n) has an operand that is, or depends on, the persistent buffer - a terminator whose CR and LF arrive in different
+    # reads is only recognised in the concatenation of the carried tail and the new data (flow-sensitive within the closure:
+    # an operand that is the bare `data` parameter, before it was appended to the buffer, does not count)
+    searched = []
+    for g in [f] + list(f.nested.values()):
+        for n in own_nodes(g.node):
+            operand = None
+            if isinstance(n, ast.Compare) and len(n.ops) == 1 and isinstance(n.ops[0], (ast.In, ast.NotIn)) and isinstance(n.left, ast.Constant) and isinstance(n.left.value, bytes) and b"\n" in n.left.value:
+                operand = n.comparators[0]
+            elif isinstance(n, ast.Call) and isinstance(n.func, ast.Attribute) and n.func.attr in ("split", "rsplit", "partition", "rpartition", "find", "index", "endswith") and n.args and isinstance(n.args[0], ast.Constant) and isinstance(n.args[0].value, bytes) and b"\n" in n.args[0].value:
+                operand = n.func.value
+            if operand is not None:
+                searched.append((g, n, operand))
+    if not searched:
+        raise AnalysisError("PortTransport._read_ready: no search for the line terminator found")
+    for g, n, operand in searched:
+        r4.instances += 1
+        r4.nontrivial += 1
+        direct = norm(operand) == BUF
+        via_local = isinstance(operand, ast.Name) and operand.id not in {a.arg for a in g.node.args.args} and BUF in deps.of_expr(operand)
+        if direct or via_local:
+            r4.ok({"terminator_search": norm(n)[:60], "on": "the carried buffer"})
+        else:
+            r4.fail(f"{f.short}:terminator-searched-in-new-data-only:{norm(n)[:40]}", g.loc(n), f"`{norm(n)[:70]}` looks for the line terminator in `{norm(operand)}`, which is not the carried buffer: a CR/LF pair split across two reads is never recognised, so the frames delivered depend on how the bytes were segmented")
     out.append(r4)
     return out
